@@ -124,10 +124,55 @@ def _compile_obj(src, flavor, extra):
     return obj, (p, tmp)
 
 
+CACHE_LIMIT = int(os.environ.get("VERIF_CACHE_MB", "6000")) * 1024 * 1024
+
+
+def _prune_cache():
+    """The harness cache is keyed by the content of /repo/include: every edited tree adds a full set of objects.
+    Keep the most recently used entries within CACHE_LIMIT (entries used in the last ten minutes are never removed)."""
+    try:
+        ents = []
+        for d in ("obj", "bin"):
+            base = os.path.join(BUILD, d)
+            for dp, dn, fn in os.walk(base):
+                for f in fn:
+                    fp = os.path.join(dp, f)
+                    st = os.stat(fp)
+                    ents.append((st.st_mtime, st.st_size, fp))
+        total = sum(e[1] for e in ents)
+        if total <= CACHE_LIMIT:
+            return
+        now = time.time()
+        for mt, sz, fp in sorted(ents):
+            if total <= CACHE_LIMIT * 0.7 or now - mt < 600:
+                break
+            try:
+                os.remove(fp)
+                total -= sz
+            except OSError:
+                pass
+        for dp, dn, fn in os.walk(os.path.join(BUILD, "bin"), topdown=False):
+            if not dn and not fn and dp != os.path.join(BUILD, "bin"):
+                try:
+                    os.rmdir(dp)
+                except OSError:
+                    pass
+    except OSError:
+        pass
+
+
+def _touch(p):
+    try:
+        os.utime(p, None)
+    except OSError:
+        pass
+
+
 def cxx_build(name, sources=None, flavor="plain", extra=None):
     """Build harness program `name` from harness/<name>.cpp (+ shared TUs)
     against /repo's current headers; cached by content hash."""
     extra = extra or []
+    _prune_cache()
     srcs = [os.path.join(ROOT, "harness", s) for s in (sources or [name + ".cpp"]) + COMMON_TUS]
     t0 = time.time()
     pend = [(s,) + _compile_obj(s, flavor, extra) for s in srcs]
@@ -139,6 +184,8 @@ def cxx_build(name, sources=None, flavor="plain", extra=None):
             if p.returncode != 0:
                 raise BuildError("compile failed: %s\n%s" % (s, out.decode(errors="replace")[-6000:]))
             os.replace(tmp, obj)
+        else:
+            _touch(obj)
         objs.append(obj)
     key = sha(*objs, flavor)[:24]
     binp = os.path.join(BUILD, "bin", key, name)
@@ -149,6 +196,8 @@ def cxx_build(name, sources=None, flavor="plain", extra=None):
             raise BuildError("link failed: %s" % err.decode(errors="replace")[-4000:])
         os.replace(binp + ".tmp", binp)
         log("built %s [%s] in %.1fs" % (name, flavor, time.time() - t0))
+    else:
+        _touch(binp)
     return binp
 
 
